@@ -1023,6 +1023,8 @@ class Interp:
             return _re.escape(args[0])
         if dotted.startswith("re.") and name in ("I", "IGNORECASE", "M", "S", "X", "U"):
             return int(getattr(_re, name))
+        if dotted == "re.sub" and len(args) >= 3 and isinstance(args[0], RegexVal | str) and isinstance(args[2], str) and "ext:re.sub" not in self.hooks:
+            return self.call_method(args[0] if isinstance(args[0], RegexVal) else RegexVal(args[0]), "sub", [args[1], args[2]], {}, node)
         if dotted in ("re.search", "re.match", "re.fullmatch", "re.finditer", "re.findall", "re.split") and len(args) >= 2:
             pat = args[0]
             if isinstance(pat, RegexVal | str) and isinstance(args[1], str):
@@ -1255,6 +1257,12 @@ class Interp:
             hook = self.hooks.get(f"regex:{attr}")
             if hook is not None:
                 return hook(self, base, args, kwargs, node)
+            if attr == "sub" and len(args) >= 2 and isinstance(args[1], str):
+                repl = args[0]
+                if not isinstance(repl, str):
+                    fn = repl
+                    repl = lambda m, fn=fn: self._as_str(self.call(fn, [m], {}, node), node)
+                return _re.compile(base.pattern, base.flags).sub(repl, args[1])
             if attr in ("search", "match", "fullmatch", "finditer", "findall", "split") and args and all(isinstance(a, str | int) for a in args):
                 # folding a constant pattern over a constant string
                 r = getattr(_re.compile(base.pattern, base.flags), attr)(*args)
@@ -1338,6 +1346,11 @@ class Interp:
 
     def _plain(self, a):
         return a
+
+    def _as_str(self, v, node):
+        if isinstance(v, str):
+            return v
+        self.unsupported(node, "regex replacement callback returned an abstract value")
 
     def sym_method(self, base, attr, args, kwargs, node):
         h = self.hooks.get(f"symmethod:{attr}")
